@@ -99,6 +99,7 @@ type FnCtx struct {
 	callHeapKeys map[string]bool
 	deps        map[string]bool
 	isMacro     map[string]bool
+	ghostFns    map[string]string // ghost function name -> current SMT symbol
 }
 
 type KnownFinding struct {
@@ -185,6 +186,10 @@ func (c *FnCtx) fact(fact string) {
 	if fact == "true" || c.factCache[fact] {
 		return
 	}
+	if strings.Contains(fact, "?") {
+		// mentions a bound variable of a specification quantifier: not a global fact
+		return
+	}
 	c.factCache[fact] = true
 	c.emit(sx("assert", fact))
 }
@@ -246,11 +251,40 @@ func (c *FnCtx) heapSym(st *State, key, sort string, nargs int) string {
 		args = []string{"Int"}
 	}
 	c.declare(name, args, sort)
+	c.heapRangeAxiom(key, name, nargs)
 	return name
+}
+
+// heapRangeAxiom states the value range of an uninterpreted heap version whose
+// components are small unsigned integers (bytes).
+func (c *FnCtx) heapRangeAxiom(key, sym string, nargs int) {
+	rng, ok := heapRanges[key]
+	if !ok {
+		return
+	}
+	if nargs == 1 {
+		c.emit(fmt.Sprintf("(assert (forall ((r Int)) (! (and (<= %d (%s r)) (<= (%s r) %d)) :pattern ((%s r)))))", rng[0], sym, sym, rng[1], sym))
+	} else {
+		c.emit(fmt.Sprintf("(assert (forall ((r Int) (i Int)) (! (and (<= %d (%s r i)) (<= (%s r i) %d)) :pattern ((%s r i)))))", rng[0], sym, sym, rng[1], sym))
+	}
+}
+
+var heapRanges = map[string][2]int64{}
+
+func noteHeapRange(key string, t types.Type) {
+	if b, ok := t.Underlying().(*types.Basic); ok {
+		switch b.Kind() {
+		case types.Uint8:
+			heapRanges[key] = [2]int64{0, 255}
+		case types.Uint16:
+			heapRanges[key] = [2]int64{0, 65535}
+		}
+	}
 }
 
 func (c *FnCtx) readElem(st *State, elem types.Type, ref, idx string) Val {
 	ek := c.elemKey(elem)
+	noteHeapRange(ek, elem)
 	v := c.w.proto(elem, "", func(path, sort string) string {
 		h := c.heapSym(st, ek+path, sort, 2)
 		return sx(h, ref, idx)
@@ -328,6 +362,7 @@ func (c *FnCtx) havocHeap(st *State, key string) (old, nw string) {
 		args = []string{"Int"}
 	}
 	c.declare(nw, args, sortOf)
+	c.heapRangeAxiom(key, nw, nargs)
 	st.heaps[key] = nw
 	return old, nw
 }
